@@ -794,6 +794,12 @@ func checkC08(h *History, sc *ScanCtx, g *GroupCtx, r *Report) {
 		}
 	}
 	for _, n := range g.View.Untainted {
+		if n.DeletionTimestamp != nil {
+			sig += ":node-being-deleted-among-candidates"
+			break
+		}
+	}
+	for _, n := range g.View.Untainted {
 		if len(n.Status.Conditions) == 1 && n.Status.Conditions[0].Type == v1.NodeReady && n.Status.Conditions[0].Status != v1.ConditionTrue {
 			sig += ":not-ready-node-among-candidates"
 			break
